@@ -59,7 +59,11 @@ DocumentedCodes == m.lastRet \in {"OK", "STREAM_END", "BUF_ERROR", "DATA_ERROR",
 \* freeing joins every thread
 EndJoinsAll == m.pc = "freed" => \A w \in W : t[w].pc = "none"
 
-\* liveness under fairness: an application that keeps calling eventually gets a terminal status or frees
-Fairness == WF_vars(Main) /\ \A w \in W : WF_vars(Worker(w)) /\ WF_vars(App)
-FairSpec == Spec /\ Fairness
+\* liveness under fairness: a caller that always offers all remaining input (with LZMA_FINISH) and ample output
+\* space eventually gets a terminal status, or LZMA_BUF_ERROR for a truncated file, or frees the decoder
+GoodApp == (\E s \in Spaces : Call("FINISH", FileLen - m.given, s)) \/ AppEnd
+LiveNext == Main \/ (\E w \in W : Worker(w)) \/ GoodApp \/ (Terminated /\ UNCHANGED vars)
+Fairness == WF_vars(Main) /\ (\A w \in W : WF_vars(Worker(w))) /\ WF_vars(GoodApp)
+FairSpec == Init /\ [][LiveNext]_vars /\ Fairness
+EventuallyDone == <>(m.ended \/ m.pc = "freed" \/ (m.pc = "out" /\ m.lastRet = "BUF_ERROR"))
 =============================================================================
